@@ -64,6 +64,7 @@ var sdScenarios = []sdScenario{
 	{Name: "group-offset-fetch-fails", Component: "group", Variant: "offset-fetch-fails", KMax: 80},
 	{Name: "group-coordinator-lost", Component: "group", Variant: "coordinator-lost", KMax: 60},
 	{Name: "group-heartbeats-die", Component: "group", Variant: "heartbeats-die", KMax: 200},
+	{Name: "group-leave-fails", Component: "group", Variant: "leave-fails", KMax: 60},
 	{Name: "om-mid-commit", Component: "om", Variant: "slow-commit", KMax: 80},
 	{Name: "om-errors", Component: "om", Variant: "errors", KMax: 80},
 	{Name: "om-manual-commit", Component: "om", Variant: "manual-commit", KMax: 80},
@@ -778,6 +779,11 @@ func sdGroup(r *sdRun, rng *rand.Rand) {
 			// coordinator is. The session gives up after the retry budget and the next one starts the same way.
 			if ctx.Kind == "heartbeat" && atomic.AddInt32(&nSync, 1) > 2 {
 				return sarama.VSimGroupAction{Kind: sarama.VGDropBefore}
+			}
+		case "leave-fails":
+			// the coordinator refuses the LeaveGroup that Close sends
+			if ctx.Kind == "leave" {
+				return sarama.VSimGroupAction{Kind: sarama.VGError, Code: sarama.ErrNotCoordinatorForConsumer}
 			}
 		case "offset-fetch-fails":
 			// the first two sessions die while they are being set up: the initial
